@@ -547,7 +547,7 @@ _c03_quick = \
      _w("hm", "iset_hp", opt={"keys": 2, "m": 1}), _w("hm", "imap_b1_ebr", opt={"keys": 2, "m": 1}),
      _w("vy", "map_st_s1_hp", opt={"m": 1, "keys": 5, "prefill": 31, "cap": 128, "ops": 0x7}), _w("vy", "map_tt_i1_hp", opt={"m": 1, "keys": 4, "prefill": 7, "cap": 1, "ops": 0x7}),
      _w("ownership", "ms_up_hp"), _w("ownership", "ram_e2_up_ebr"), _w("ownership", "nik_e1_up_hp"), _w("ownership", "kf_k2_up_hp"), _w("ownership", "vb_s2_up"), _w("ownership", "nb_c2_up"),
-     _w("guards", "snap_hp", c=2), _w("guards", "snap_ebr", c=2),
+     _w("guards", "snap_hp", c=1), _w("guards", "snap_ebr", c=1), _w("guards", "snap_hp", c=2, opt={"flips": 0}),
      _w("queues", "ms_hp", variant="tsanv"), _w("queues", "ram_e1p1_ebr", variant="tsanv"), _w("queues", "nik_e1p1_hp", variant="tsanv"),
      _w("reclaim", "proto_hp", variant="tsanv", opt={"ops": 0x62}), _w("reclaim", "proto_ebr", variant="tsanv", opt={"ops": 0x62}), _w("reclaim", "proto_stamp", c=0, variant="tsanv", opt={"ops": 0x62}),
      run("queues", "ms_hp", c=2, variant="tsanv"), run("reclaim", "proto_qsbr", c=1, variant="tsanv", opt={"ops": 0xee})] + \
